@@ -92,11 +92,12 @@ func VH_C03_step() {
 // vReqCtx is a request context whose cancellation the harness controls.
 type vReqCtx struct {
 	done chan struct{}
+	err  error // what Err() reports (non-nil once cancelled, for the harnesses that set it)
 }
 
 func (c *vReqCtx) Deadline() (time.Time, bool)       { return time.Time{}, false }
 func (c *vReqCtx) Done() <-chan struct{}             { return c.done }
-func (c *vReqCtx) Err() error                        { return nil }
+func (c *vReqCtx) Err() error                        { return c.err }
 func (c *vReqCtx) Value(key interface{}) interface{} { return nil }
 
 var _ gocontext.Context = (*vReqCtx)(nil)
@@ -250,6 +251,13 @@ func VH_C03_chain() {
 	ref := &vChainRun{b: impl.b, drawn: impl.drawn, share: impl}
 
 	f := NewWithLogger(io.Discard)
+	method := vx.Param("method") // "" = GET; HEAD: the routes are GET routes with AutoHead on (a body write still counts as written)
+	if method == "" {
+		method = "GET"
+	}
+	if method == "HEAD" {
+		f.AutoHead(true)
+	}
 	k := 0
 	for j := 0; j < nmw; j++ {
 		f.Use(impl.handler(k))
@@ -298,7 +306,7 @@ func VH_C03_chain() {
 	}
 
 	spy := &vSpy{}
-	req := (&http.Request{Method: "GET", URL: &url.URL{Path: "/g/r"}, Header: http.Header{}}).WithContext(impl.ctx)
+	req := (&http.Request{Method: method, URL: &url.URL{Path: "/g/r"}, Header: http.Header{}}).WithContext(impl.ctx)
 	f.ServeHTTP(spy, req)
 
 	ref.refRun()
